@@ -362,7 +362,8 @@ type Query struct {
 	Goal  *Term
 	NIA   bool
 	Extra []string // raw SMT-LIB assertions (axiom instances)
-	Comm   bool
+	Comm  bool
+	Eager bool // start every solver at once (retry stage)
 }
 
 func (q *Query) smtlib() string {
@@ -483,6 +484,10 @@ func solve(q *Query, timeoutS int) SolveResult {
 		go func() { results <- runOne(ctx, solvers[i], fn, timeoutS) }()
 	}
 	launch(0)
+	if q.Eager {
+		launch(1)
+		launch(2)
+	}
 	stagger := time.After(1500 * time.Millisecond)
 	var all []SolveResult
 	for {
